@@ -50,6 +50,12 @@ type Case struct {
 	// SrvOpt: server-option class of socket lanes ("", conn-timeout-small,
 	// conn-timeout-large, prefix). PaceMs: the client pauses that long
 	// between its messages. Members: gzip member layout of the body.
+	// Proxied: the handler is reached through RegisterConn and a real gRPC
+	// back-end; it is the back-end's handler that is observed.
+	// Bad: after the messages of Msgs the body carries one more message that
+	// is "malformed" or "oversized".
+	Proxied bool   `json:"proxied,omitempty"`
+	Bad     string `json:"bad_later_message,omitempty"`
 	// Asset: the download handler serves long-lived memory ("subslice",
 	// "reuse"); Reply then holds the pristine bytes the client must get.
 	// Duplex: the handler pushes Reply from a second goroutine while it
@@ -249,6 +255,22 @@ type expect struct {
 }
 
 func (c *Case) expectation() expect {
+	ex := c.expectation0()
+	if c.Proxied {
+		if !ex.clean {
+			// the proxy aborts the back-end call: messages it had forwarded
+			// may be discarded with the reset
+			ex.exact = false
+		}
+		ex.class += "@proxied-back-end"
+	}
+	return ex
+}
+
+func (c *Case) expectation0() expect {
+	if c.Bad != "" {
+		return expect{n: len(c.Msgs), class: c.Bad + "-later-message", mustErr: true, exact: true}
+	}
 	if c.Trunc < 0 || c.Trunc >= len(c.Body) && !c.TruncErr && c.Abort != "close" {
 		return expect{n: len(c.Msgs), class: "end-of-stream", clean: true, exact: true}
 	}
@@ -499,6 +521,14 @@ func (c *Case) decodeResponse(code int, hdr, trailer http.Header, body []byte) *
 // execInproc runs one in-process case and judges it.
 func (e *env) execInproc(c *Case) (vs []viol, outcome string) {
 	mux := e.muxes[c.Limit]
+	if c.Proxied {
+		m, err := e.proxied()
+		if err != nil {
+			e.r.Inconclusive("cannot start the proxied back-end: " + err.Error())
+			return nil, "no-back-end"
+		}
+		mux = m
+	}
 	if mux == nil {
 		panic(fmt.Sprintf("no mux for limit %d", c.Limit))
 	}
@@ -524,6 +554,23 @@ func (e *env) execInproc(c *Case) (vs []viol, outcome string) {
 	}
 	if resp.Panic != nil {
 		return []viol{{resp.Panic.Key(), "panic while serving a stream: " + resp.Panic.Value}}, "panic"
+	}
+	if c.Proxied {
+		// the back-end's handler finishes on its own schedule
+		wait := 10 * time.Millisecond
+		if ex := c.expectation(); ex.clean || ex.n >= 1 {
+			wait = 15 * time.Second
+		}
+		select {
+		case <-rc.started:
+			select {
+			case <-rc.done:
+			case <-time.After(15 * time.Second):
+				e.r.Inconclusive("proxied back-end handler did not reach its terminal event within 15s")
+				return nil, "inconclusive"
+			}
+		case <-time.After(wait):
+		}
 	}
 	s := rc.snap()
 	co := c.decodeResponse(resp.Code, resp.Header, resp.Trailer, resp.Body)
